@@ -13,11 +13,14 @@ func checkC02(c *Ctx, r *Report) {
 	r.Explanation = "W-SE: for every registered box type and every configuration of its discriminants, the symbolic number of bits EncodeSW writes on the decoded abstract structure equals 8*Size() as polynomials " +
 		"over the symbolic counts/lengths, and the header item carries Size() of the same box; T-WRAP: every Encode wrapper allocates exactly int(recv.Size()), encodes the same receiver into it, checks the error and writes sw.Bytes(); " +
 		"S-MEMBER: Size/Encode/EncodeSW of the composites (File, InitSegment, MediaSegment, Fragment) traverse the same members. " +
-		"W-NARROW: in the functions reachable from the size methods no product of two non-constant values is computed in 32 bits or fewer and only then widened. Decides agreement of the size function with the encoder per configuration; does not decide irregular boxes, numeric loop bounds, or idempotence of encodes that mutate state."
+		"T-LIVE: Size() of every box type that holds children depends on the Children it holds now (no cached size); W-NARROW: in the functions reachable from the size methods no product of two non-constant values is computed in 32 bits or fewer and only then widened. Decides agreement of the size function with the encoder per configuration; does not decide irregular boxes, numeric loop bounds, or idempotence of encodes that mutate state."
 	wireAssumptions(r)
 	ruleWSE(c, r)
 	ruleTWRAP(c, r)
 	ruleSMEMBER(c, r)
+	if n := ruleLiveSize(c, r); n < 30 {
+		r.Undecided("T-LIVE", "scope", "", fmt.Sprintf("only %d container types found", n))
+	}
 	// W-NARROW over the size functions and what they call: a product computed in a narrow type and only then
 	// widened makes Size() wrap while the encoder still writes every entry.
 	sizeFns := map[*ssa.Function]bool{}
